@@ -93,6 +93,10 @@ def gen_spec(rng, audit_types=("CARD_COMPARISON", "ONEAUDIT", "POLLING"), n_cont
     ncon = n_contests or rng.choice((1, 1, 2, 2, 3, 4))
     ncards = n_cards or rng.choice((3, 5, 8, 12, 20, 30, 45, 60))
     contests = {}
+    if use_style:
+        # polling "assumes style information is irrelevant" (Audit.mvrs_to_data): it consumes the whole sample, so it is
+        # only generated without style-based sampling
+        audit_types = tuple(a for a in audit_types if a != "POLLING") or ("CARD_COMPARISON",)
     at_common = rng.choice(audit_types)
     for j in range(ncon):
         cid = f"con{j + 1}"
@@ -131,6 +135,16 @@ def gen_spec(rng, audit_types=("CARD_COMPARISON", "ONEAUDIT", "POLLING"), n_cont
         per_batch[b] += 1
         cards.append({"id": f"{7 + b}-{b + 1}-{per_batch[b]}", "votes": {c: gen_ballot(rng, contests[c]) for c in lst},
                       "tally_pool": f"{7 + b}-{b + 1}", "pool": b in pooled_batches})
+    # every contest is listed on at least two cards (an audit of a contest that is on no card is not generated)
+    for j, cid in enumerate(cids):
+        have = [cd for cd in cards if cid in cd["votes"]]
+        for q in range(len(cards)):
+            cd = cards[(j + q) % len(cards)]
+            if len(have) >= min(2, len(cards)):
+                break
+            if cid not in cd["votes"]:
+                cd["votes"][cid] = gen_ballot(rng, contests[cid])
+                have.append(cd)
     # reported winners: usually right (taken from the CVRs), sometimes deliberately wrong
     for cid, con in contests.items():
         if con["kind"] == "plurality":
@@ -206,7 +220,7 @@ def gen_spec(rng, audit_types=("CARD_COMPARISON", "ONEAUDIT", "POLLING"), n_cont
             mvrs[str(i)] = {"kind": "votes", "votes": v}
     sn = {"kind": "sha256", "seed": rng.randrange(10 ** 12)} if rng.random() < 0.6 else {"kind": "explicit", "nums": None}
     return {"use_style": use_style, "max_cards": max_cards, "contests": contests, "cards": cards, "phantom_pool": ph_pool,
-            "mvrs": mvrs, "sample_nums": sn, "sn_mode": rng.choice(("list_order", "reverse", "shuffled", "contest_first"))}
+            "mvrs": mvrs, "sample_nums": sn, "sn_mode": rng.choice(("list_order", "reverse", "shuffled", "contest_first")), "sn_step": rng.choice((1, 1, 17, 0.5))}
 
 
 # ---- reference assorters (written from the definitions; cross-checked by C02 / C14) ---------------------------
@@ -371,7 +385,8 @@ class Sim:
                     order.sort(key=lambda i: (0 if self.cvr_list[i].has_contest(first) else 1, i))
                 nums = [0] * n
                 for pos, i in enumerate(order):
-                    nums[i] = 1000 + 17 * pos
+                    # sample numbers 0, 1, 2, ... (what the library's own test uses) or spaced; the smallest is 0
+                    nums[i] = pos * self.spec.get("sn_step", 1)
                 sn["nums"] = nums
             for c, v in zip(self.cvr_list, nums):
                 c.sample_num = v
@@ -419,7 +434,13 @@ class Sim:
             con.sample_size = int(sizes.get(cid, 0))
 
     def draw(self, prev=None):
-        return self.L["CVR"].consistent_sampling(cvr_list=self.cvr_list, contests=self.contests, sampled_cvr_indices=prev)
+        """Style-based audits: the library's consistent sampling.  Without style information the sample is a simple
+        random sample of all cards: the first n cards in sample-number order (n = the common sample size)."""
+        if self.use_style:
+            return self.L["CVR"].consistent_sampling(cvr_list=self.cvr_list, contests=self.contests, sampled_cvr_indices=prev)
+        n = max(con.sample_size for con in self.contests.values())
+        order = sorted(range(len(self.cvr_list)), key=lambda i: self.cvr_list[i].sample_num)
+        return order[:n]
 
     def samples(self, indices):
         """(mvr_sample, cvr_sample) in selection order, through prep_comparison_sample."""
